@@ -4,7 +4,7 @@ export GOFLAGS=-mod=mod GOPROXY=off GOSUMDB=off GOTOOLCHAIN=local
 FROM=$1; TO=$2; shift 2
 PROPS="${*:-C03 C05 C08 C11 C12 C13 C18}"
 cd "$(dirname "$0")/.." || exit 2
-( cd sim && go build -o ../.build/simkv-sweep . ) || exit 2
+( cd sim && go build -tags verif -o ../.build/simkv-sweep . ) || exit 2
 for s in $(seq $FROM $TO); do
   for p in $PROPS; do
     out=$(VERIF_SEED=$s VERIF_DIR=$(pwd) ./.build/simkv-sweep check -prop $p -tier quick -no-evidence 2>&1)
